@@ -184,4 +184,14 @@ def check(ctx):
     rep.floor("literal-returning handlers", n_hand, 6)
     rep.floor("declared parameters whose support E4 resolved", n_resolved, 23)
     rep.floor("declared parameters proved covered", n_proved, 23)
+    # ---- partial-key memos on the frequency path ---------------------------------------------------------------------
+    from .. import memo
+
+    rep.rule("R-C09-memo", "no function on the parameter-frequency path (gradients/, core/operator/, ops/op_math/) memoises a value computed from an "
+             "operator under a key that contains the operator only through projections (type(op), len(op.wires), op.name …): frequencies derived "
+             "from a generator differ between operators of one type and size (controlled gates with different bases)")
+    n_m = memo.report(ix, rep, "R-C09-memo", ("pennylane/gradients/", "pennylane/core/operator/", "pennylane/ops/op_math/", "pennylane/ops/functions/"),
+                      "operators")
+    if not n_m:
+        rep.proved("R-C09-memo", "frequency path", "no partial-key memo (positive examples are kept as self-test variants)", nontrivial=False)
     return rep
